@@ -3,6 +3,7 @@
 package main
 
 import (
+	"context"
 	"errors"
 	"fmt"
 	"net"
@@ -17,6 +18,7 @@ import (
 	"go.minekube.com/gate/pkg/edition/java/lite/config"
 	"go.minekube.com/gate/pkg/edition/java/netmc"
 	"go.minekube.com/gate/pkg/edition/java/proto/packet"
+	"go.minekube.com/gate/pkg/gate/proto"
 	"go.minekube.com/gate/pkg/util/netutil"
 
 	"verifharness/hx"
@@ -320,6 +322,276 @@ func concRoundRobin(run *hx.Run, class string, n, k int, host string, backends [
 	run.Case(class, fmt.Sprintf("conc-rr %d %d %s %s", n, k, hx.HexS(host), hexList(backends)), out)
 }
 
+// ---------- the real lite.Forward with fault injection (connection lifecycle vs. counters) ----------
+
+type fwdClient struct {
+	netmc.MinecraftConn // nil: Forward only needs the methods below
+	c                   net.Conn
+}
+
+func (f *fwdClient) Conn() net.Conn           { return f.c }
+func (f *fwdClient) Context() context.Context { return context.Background() }
+func (f *fwdClient) Close() error             { return f.c.Close() }
+
+// a client whose reader holds buffered bytes and/or a pending read error (netmc's ReadBuffered)
+type fwdBufClient struct {
+	fwdClient
+	buf []byte
+	err error
+}
+
+func (f *fwdBufClient) ReadBuffered() ([]byte, error) { return f.buf, f.err }
+
+type acceptEv struct {
+	li int
+	c  net.Conn
+}
+
+type fwdSlot struct {
+	clientSide net.Conn
+	backend    net.Conn
+	done       chan struct{}
+	open       bool
+}
+
+type fwdWorld struct {
+	lns      []net.Listener
+	addrs    []string
+	acceptCh chan acceptEv
+	sm       *lite.StrategyManager
+	slots    []*fwdSlot
+}
+
+func newFwdWorld(n int) *fwdWorld {
+	w := &fwdWorld{acceptCh: make(chan acceptEv, 64), sm: lite.NewStrategyManager()}
+	for i := 0; i < n; i++ {
+		ln, err := net.Listen("tcp", "127.0.0.1:0")
+		if err != nil {
+			panic(err)
+		}
+		w.lns = append(w.lns, ln)
+		w.addrs = append(w.addrs, ln.Addr().String())
+		go func(i int, ln net.Listener) {
+			for {
+				c, err := ln.Accept()
+				if err != nil {
+					return
+				}
+				w.acceptCh <- acceptEv{i, c}
+			}
+		}(i, ln)
+	}
+	return w
+}
+
+func (w *fwdWorld) real(tok string) string {
+	if tok[0] == 'L' {
+		i, _ := strconv.Atoi(tok[1:])
+		return w.addrs[i]
+	}
+	return "[bad" + tok[1:] // does not parse: the dial fails at once
+}
+
+func (w *fwdWorld) counts() string {
+	parts := make([]string, len(w.addrs))
+	for i, a := range w.addrs {
+		parts[i] = strconv.Itoa(int(w.sm.GetOrCreateCounter(a).Load()))
+	}
+	return fmt.Sprintf("active=%d cnt=%s", w.sm.ActiveConnections(), strings.Join(parts, ","))
+}
+
+// flush: a marker connection per listener; accepts are FIFO per listener, so once every marker has come through,
+// every connection dialled before has been seen.  Returns the non-marker connections found.
+func (w *fwdWorld) flushAccepts() []acceptEv {
+	markers := map[string]bool{}
+	var mine []net.Conn
+	for _, a := range w.addrs {
+		c, err := net.Dial("tcp", a)
+		if err != nil {
+			panic(err)
+		}
+		markers[c.LocalAddr().String()] = true
+		mine = append(mine, c)
+	}
+	var found []acceptEv
+	for seen := 0; seen < len(w.addrs); {
+		select {
+		case ev := <-w.acceptCh:
+			if markers[ev.c.RemoteAddr().String()] {
+				seen++
+				_ = ev.c.Close()
+			} else {
+				found = append(found, ev)
+			}
+		case <-time.After(5 * time.Minute):
+			panic("marker connection not accepted")
+		}
+	}
+	for _, c := range mine {
+		_ = c.Close()
+	}
+	return found
+}
+
+func (w *fwdWorld) fopen(run *hx.Run, class, strategy, host, routeHost string, toks []string, mode string) {
+	out := hx.Guard(15*time.Minute, func() string {
+		backends := make([]string, len(toks))
+		for i, t := range toks {
+			backends[i] = w.real(t)
+		}
+		rs := []config.Route{{Host: []string{routeHost}, Backend: backends, Strategy: config.Strategy(strategy)}}
+		clientSide, proxySide := net.Pipe()
+		var client netmc.MinecraftConn
+		base := fwdClient{c: proxySide}
+		switch mode {
+		case "ok":
+			client = &base
+		case "okempty":
+			client = &fwdBufClient{fwdClient: base}
+		case "okbuf":
+			client = &fwdBufClient{fwdClient: base, buf: []byte{9, 8, 7, 6, 5}}
+		case "flusherr":
+			client = &fwdBufClient{fwdClient: base, err: errors.New("read tcp: connection reset by peer")}
+		default: // flusherrdata
+			client = &fwdBufClient{fwdClient: base, buf: []byte{1, 2}, err: errors.New("read tcp: connection reset by peer")}
+		}
+		hs := &packet.Handshake{ProtocolVersion: 765, ServerAddress: host, Port: 25565, NextStatus: 2}
+		pc := &proto.PacketContext{Direction: proto.ServerBound, Protocol: 765, PacketID: 0, Payload: []byte{0, 1, 2}}
+		done := make(chan struct{})
+		go func() {
+			defer close(done)
+			// a generous dial timeout: under machine load a loopback dial that times out would make Forward try the next
+			// backend, which is correct behaviour but not the history this case describes
+			lite.Forward(10*time.Minute, rs, logr.Discard(), client, hs, pc, w.sm)
+		}()
+		var ev *acceptEv
+		select {
+		case <-done:
+			if found := w.flushAccepts(); len(found) > 0 {
+				ev = &found[0]
+				for _, f := range found[1:] {
+					_ = f.c.Close()
+				}
+			}
+			_ = clientSide.Close()
+			if ev == nil {
+				return "end=none " + w.counts()
+			}
+			_ = ev.c.Close()
+			return fmt.Sprintf("end=returned:L%d %s", ev.li, w.counts())
+		case e := <-w.acceptCh:
+			ev = &e
+		case <-time.After(5 * time.Minute):
+			return "hang"
+		}
+		// a backend was dialled.  A write on the client side completes only once Forward is piping; it fails
+		// once Forward has returned (it closes the client).
+		if _, err := clientSide.Write([]byte{0x7f}); err != nil {
+			<-done
+			_ = ev.c.Close()
+			_ = clientSide.Close()
+			return fmt.Sprintf("end=returned:L%d %s", ev.li, w.counts())
+		}
+		// read at the backend up to the marker byte: the connection is being forwarded now
+		_ = ev.c.SetReadDeadline(time.Now().Add(5 * time.Minute))
+		one := make([]byte, 1)
+		for {
+			if _, err := ev.c.Read(one); err != nil {
+				return "backend-read-failed"
+			}
+			if one[0] == 0x7f {
+				break
+			}
+		}
+		w.slots = append(w.slots, &fwdSlot{clientSide: clientSide, backend: ev.c, done: done, open: true})
+		return fmt.Sprintf("end=open:L%d %s slot=%d", ev.li, w.counts(), len(w.slots)-1)
+	})
+	run.Case(class, fmt.Sprintf("fopen %s %s %s %s %s", strategy, hx.HexS(host), hx.HexS(routeHost), strings.Join(toks, ","), mode), out)
+}
+
+func (w *fwdWorld) fclose(run *hx.Run, class string, slot int) {
+	out := hx.Guard(15*time.Minute, func() string {
+		sl := w.slots[slot]
+		sl.open = false
+		_ = sl.clientSide.Close()
+		select {
+		case <-sl.done:
+		case <-time.After(5 * time.Minute):
+			return "hang"
+		}
+		_ = sl.backend.Close()
+		return w.counts()
+	})
+	run.Case(class, fmt.Sprintf("fclose %d", slot), out)
+}
+
+func (w *fwdWorld) openSlots() []int {
+	var o []int
+	for i, s := range w.slots {
+		if s.open {
+			o = append(o, i)
+		}
+	}
+	return o
+}
+
+func (w *fwdWorld) reset(run *hx.Run) {
+	for _, i := range w.openSlots() {
+		w.fclose(run, "fclose-drain", i)
+	}
+	w.sm = lite.NewStrategyManager()
+	w.slots = nil
+	run.Case("reset", "reset", "ok")
+}
+
+var fwdStrategies = []string{"sequential", "round-robin", "least-connections", ""}
+var fwdModes = []string{"ok", "okempty", "okbuf", "flusherr", "flusherr", "flusherrdata"}
+
+func genFwdToks(r *hx.Rng, nl int) []string {
+	n := 1 + r.Intn(4)
+	t := make([]string, n)
+	for i := range t {
+		if r.Chance(1, 4) {
+			t[i] = "X" + strconv.Itoa(r.Intn(2))
+		} else {
+			t[i] = "L" + strconv.Itoa(r.Intn(nl))
+		}
+	}
+	return t
+}
+
+func forwardHistories(run *hx.Run, fw *fwdWorld, n int) {
+	r := run.Rng
+	for h := 0; h < n; h++ {
+		fw.reset(run)
+		strat := hx.Pick(r, fwdStrategies)
+		toks := genFwdToks(r, len(fw.addrs))
+		steps := 4 + r.Intn(14)
+		for s := 0; s < steps; s++ {
+			switch k := r.Intn(10); {
+			case k < 6:
+				host := "play"
+				if r.Chance(1, 10) {
+					host = "elsewhere"
+				}
+				tk := toks
+				if r.Chance(1, 5) {
+					tk = genFwdToks(r, len(fw.addrs))
+				}
+				mode := hx.Pick(r, fwdModes)
+				fw.fopen(run, "fopen-"+mode, strat, host, "play", tk, mode)
+			default:
+				if o := fw.openSlots(); len(o) > 0 {
+					fw.fclose(run, "fclose", hx.Pick(r, o))
+				} else {
+					fw.fopen(run, "fopen-ok", strat, "play", "play", toks, "ok")
+				}
+			}
+		}
+	}
+	fw.reset(run)
+}
+
 // Counter-drift probe.  One connection is held open per backend.  In every round, for every backend at the same
 // time, one goroutine closes the held connection (the count drops to zero and the counter is deleted) while
 // another opens the next one.  After each round (a barrier: nothing in flight, exactly one connection open per
@@ -513,6 +785,21 @@ func main() {
 	concRoundRobin(run, "fixed-conc", 8, 30, "rr", []string{"a", "b", "c"})
 	concRandom(run, "fixed-conc", 8, 200, []string{"a", "b", "c"})
 	concCounterDrift(run, "fixed-conc", run.Scale(6000, 30000), "x", []string{"busy.example.test:25565", "b", "c:1"})
+
+	// ---- the real Forward: every way a call can end vs. the counters (fixed cases, then generated) ----
+	fw := newFwdWorld(3)
+	fw.reset(run)
+	fw.fopen(run, "fixed-fwd", "least-connections", "play", "play", []string{"L0", "L1"}, "ok")
+	fw.fclose(run, "fixed-fwd", 0)
+	for i := 0; i < 3; i++ {
+		fw.fopen(run, "fixed-fwd", "least-connections", "play", "play", []string{"L0", "L1"}, "flusherr")
+	}
+	fw.fopen(run, "fixed-fwd", "least-connections", "play", "play", []string{"L0", "L1"}, "okbuf")
+	fw.fopen(run, "fixed-fwd", "least-connections", "play", "play", []string{"L0", "L1"}, "ok")
+	fw.fopen(run, "fixed-fwd", "sequential", "play", "play", []string{"X0", "X1"}, "ok")
+	fw.fopen(run, "fixed-fwd", "sequential", "nomatch", "play", []string{"L0"}, "ok")
+	fw.fopen(run, "fixed-fwd", "sequential", "play", "play", []string{"X0", "L2", "L2"}, "flusherrdata")
+	forwardHistories(run, fw, run.Scale(40, 600))
 
 	// ---- generated sequential histories ----
 	nHist := run.Scale(700, 6000)
